@@ -21,7 +21,7 @@ PRELUDES = [
      ["lookup", 1, "CDataArrays", ["name", "a"]], ["append", 3, "LSources", 2], ["probe_link", 4, "LSources"],
      ["remove", 3, "LSources", ["pos", 0]], ["append", 4, "LSources", 2], ["set_attr", 4, "ALabel", "l"], ["reopen", False]],
 ]
-PROFILE = {"preludes": PRELUDES, "prelude_prob": 0.25, "weights": {"reopen": 2.0, "set_attr": 6, "set_link": 4, "remove": 3, "delete": 2, "lookup": 4,
+PROFILE = {"keep_walks": True, "preludes": PRELUDES, "prelude_prob": 0.25, "weights": {"reopen": 2.0, "set_attr": 6, "set_link": 4, "remove": 3, "delete": 2, "lookup": 4,
                        "lookup_link": 3, "probe_link": 1.5, "probe": 1, "bad": 0.5}}
 RULE = ("random histories over all modelled entity kinds (blocks, groups, arrays, tags, multi-tags, features, nested sources and "
         "sections, properties) with attribute values incl. None, empty and non-ASCII strings, links and unlinks, deletions, and a "
@@ -31,9 +31,23 @@ RULE = ("random histories over all modelled entity kinds (blocks, groups, arrays
         "emptied through one object and refilled through another that had cached it).")
 
 
+HEADER_ATTR = {"AType": 1, "ADefinition": 2}      # offset of the attribute after the id in an entity's walk header
+
+
 def predicate(h):
     out = []
     tr = h["trace"]
+    walks = h.get("walks")
+    # a successful write through ANY handle of a live entity shows through fresh objects at once
+    if walks:
+        for i, op in enumerate(h["ops"]):
+            if op[0] == "set_attr" and op[2] in HEADER_ATTR and h["results"][i][0] == "ok":
+                tid = h["target_ids"][i]
+                w = walks[i]
+                pos = [k for k in range(3, len(w) - 2) if w[k] == tid and w[k - 3] == -1 and isinstance(w[k - 2], int) and 101 <= w[k - 2] <= 108]
+                if pos and all(w[k + HEADER_ATTR[op[2]]] != op[3] for k in pos):
+                    out.append(("a successful write through a handle is not visible through fresh objects", i,
+                                {"op": op, "stored": w[pos[0] + HEADER_ATTR[op[2]]]}))
     for i, op in enumerate(h["ops"]):
         if op[0] == "reopen" and i > 0 and h["results"][i][0] == "ok":
             if tr[i][1] != tr[i - 1][1]:
@@ -41,8 +55,19 @@ def predicate(h):
     return out
 
 
+def stale_link_handle(v, h):
+    """known finding: the handle was obtained from a link list (lookup_link) and that link has been removed since"""
+    what, step, detail = v
+    if not what.startswith("a successful write through a handle is not visible"):
+        return False
+    hnum = h["ops"][step][1]
+    made = [i for i, (op, res) in enumerate(zip(h["ops"], h["results"])) if res[0] == "ok" and res[1] == hnum and op[0] == "lookup_link"]
+    return bool(made) and any(op[0] in ("remove", "delete") for op in h["ops"][made[-1]:step])
+
+
 def run(ctx):
-    return storeprop.run(ctx, ID, THEOREMS, "Props/C02.v", PROFILE, (28, 40), 100, 900, predicate, RULE)
+    return storeprop.run(ctx, ID, THEOREMS, "Props/C02.v", PROFILE, (28, 40), 100, 900, predicate, RULE,
+                         known_matchers={"stale_link_handle": stale_link_handle})
 
 
 def replay(ctx):
